@@ -19,14 +19,18 @@ pub enum Outcome {
     Error = 3,
     Mutate = 4,
     Register = 5,
+    /// writes RIP: the run continues at the second trailing instruction
+    Redirect = 6,
 }
-const OUTCOMES: [Outcome; 6] = [
+const NOUT: usize = 7;
+const OUTCOMES: [Outcome; NOUT] = [
     Outcome::Unhandled,
     Outcome::Handled,
     Outcome::Stop,
     Outcome::Error,
     Outcome::Mutate,
     Outcome::Register,
+    Outcome::Redirect,
 ];
 
 #[derive(Clone, Debug)]
@@ -45,6 +49,7 @@ thread_local! {
     static LOG: RefCell<Vec<Entry>> = RefCell::new(vec![]);
     static STEP: RefCell<usize> = RefCell::new(0);
     static POOL: RefCell<Vec<&'static RustCallbackFunction>> = RefCell::new(vec![]);
+    static TARGET: RefCell<u64> = RefCell::new(0);
 }
 
 const M1: SupportedMnemonic = SupportedMnemonic::Inc;
@@ -79,6 +84,10 @@ fn make_hook(id: usize, before: bool, outcome: Outcome) -> &'static RustCallback
                 ax.reg_write_64(SR::RBX, mutate_value(id, before))?;
                 Ok(HookResult::Unhandled)
             }
+            Outcome::Redirect => {
+                ax.reg_write_64(SR::RIP, TARGET.with(|t| *t.borrow()))?;
+                Ok(HookResult::Unhandled)
+            }
             Outcome::Register => {
                 let inner: &'static RustCallbackFunction = POOL.with(|p| p.borrow()[0]);
                 let r1 = ax.hook_before_mnemonic_native(M1, inner);
@@ -95,7 +104,7 @@ fn make_hook(id: usize, before: bool, outcome: Outcome) -> &'static RustCallback
 
 /// pool index: 0 = the never-run inner hook; then (id, before, outcome)
 fn pool_index(id: usize, before: bool, outcome: Outcome) -> usize {
-    1 + (id * 2 + before as usize) * 6 + outcome as usize
+    1 + (id * 2 + before as usize) * NOUT + outcome as usize
 }
 
 fn init_pool() {
@@ -134,12 +143,16 @@ fn init_pool() {
     });
 }
 
-const PROGRAMS: [(&str, &[&str]); 4] = [
+const PROGRAMS: [(&str, &[&str]); 5] = [
     ("M1", &["M1"]),
     ("M1 M1", &["M1", "M1"]),
     ("M2 M1", &["M2", "M1"]),
     ("M1 M2", &["M1", "M2"]),
+    // the run ends inside an instruction: a `ret` on the empty stack `init_stack` set up, with a
+    // logging hook pair of its own - the instruction that ends the run has after-hooks too
+    ("M1 RET", &["M1", "RET"]),
 ];
+const M3: SupportedMnemonic = SupportedMnemonic::Ret;
 const FOLLOWUPS: [&str; 5] = ["register-before", "register-after", "handle_syscalls", "step", "execute"];
 
 struct Config {
@@ -162,14 +175,21 @@ fn run_config(c: &Config) -> Vec<(String, String)> {
     for it in PROGRAMS[c.program].1 {
         if *it == "M1" {
             code.extend_from_slice(&[0x48, 0xFF, 0xC1]);
-            kinds.push(true);
+            kinds.push(1u8);
+        } else if *it == "RET" {
+            code.push(0xC3);
+            kinds.push(2u8);
         } else {
             code.push(0x90);
-            kinds.push(false);
+            kinds.push(0u8);
         }
     }
     // trailing instruction that has no hooks so that the run ends by reaching the code end
     code.extend_from_slice(&[0x48, 0x89, 0xC0]); // mov rax,rax
+    // a second one: where a redirecting hook sends the run
+    let target = 0x1000 + code.len() as u64;
+    TARGET.with(|t| *t.borrow_mut() = target);
+    code.extend_from_slice(&[0x48, 0x89, 0xD2]); // mov rdx,rdx
     let mut ax = Axecutor::new(&code, 0x1000, 0x1000).unwrap();
     for k in 0..16 {
         ax.reg_write_64(crate::emu::GPR64[k], crate::emu::filler_gpr(k)).unwrap();
@@ -185,6 +205,11 @@ fn run_config(c: &Config) -> Vec<(String, String)> {
     }
     ax.hook_before_mnemonic_native(M2, pool[pool_index(9, true, Outcome::Unhandled)]).unwrap();
     ax.hook_after_mnemonic_native(M2, pool[pool_index(9, false, Outcome::Unhandled)]).unwrap();
+    if kinds.contains(&2) {
+        ax.init_stack(0x100).unwrap();
+        ax.hook_before_mnemonic_native(M3, pool[pool_index(8, true, Outcome::Unhandled)]).unwrap();
+        ax.hook_after_mnemonic_native(M3, pool[pool_index(8, false, Outcome::Unhandled)]).unwrap();
+    }
     let hooks_before_run = crate::emu::sorted_lines(&ax.verif_hooks_display());
     LOG.with(|l| l.borrow_mut().clear());
     // drive by single steps
@@ -193,7 +218,9 @@ fn run_config(c: &Config) -> Vec<(String, String)> {
     let mut stopped = false;
     let mut failed = false;
     let ctx = format!("before={:?} after={:?} program={} followup={}", c.before, c.after, PROGRAMS[c.program].0, FOLLOWUPS[c.followup]);
-    for (k, is_m1) in kinds.iter().enumerate() {
+    for (k, kind) in kinds.iter().enumerate() {
+        let is_m1 = &(*kind == 1);
+        let is_ret = *kind == 2;
         STEP.with(|s| *s.borrow_mut() = k);
         let out = crate::emu::step(&mut ax);
         let log: Vec<Entry> = LOG.with(|l| l.borrow().iter().filter(|e| e.step == k).cloned().collect());
@@ -206,7 +233,7 @@ fn run_config(c: &Config) -> Vec<(String, String)> {
         let hook_set_a: Vec<Outcome> = if *is_m1 { c.after.clone() } else { vec![Outcome::Unhandled] };
         // (6) foreign hooks
         for e in &log {
-            let foreign = if *is_m1 { e.id == 9 } else { e.id != 9 };
+            let foreign = if *is_m1 { e.id >= 8 } else if is_ret { e.id != 8 } else { e.id != 9 };
             if foreign || e.id == 77 {
                 v("hooks|foreign-mnemonic-hook-ran", format!("{ctx}: step {k}: hook {} ran for the other mnemonic", e.id));
             }
@@ -245,11 +272,23 @@ fn run_config(c: &Config) -> Vec<(String, String)> {
         if !bseq.iter().any(|e| terminator(e.outcome)) && bseq.len() != hook_set_b.len() {
             v("hooks|must-run-violated|before", format!("{ctx}: step {k}: {} of {} before-hooks ran although none handled, stopped or failed", bseq.len(), hook_set_b.len()));
         }
-        // (5) observations
-        for e in &bseq {
-            if e.rip != next_rip {
-                v("hooks|rip-not-advanced|before", format!("{ctx}: step {k}: before-hook saw RIP {:#x}, next instruction is at {next_rip:#x}", e.rip));
+        // (5) observations; RIP is the next instruction's address until a hook writes it, and then
+        // what that hook wrote (7)
+        let mut exp_rip = next_rip;
+        for e in &log {
+            if e.rip != exp_rip {
+                let (key, why) = if exp_rip == next_rip {
+                    (format!("hooks|rip-not-advanced|{}", if e.before { "before" } else { "after" }), "the next instruction is there")
+                } else {
+                    (format!("hooks|rip-written-by-hook-lost|seen-by-{}-hook", if e.before { "before" } else { "after" }), "an earlier hook of this instruction wrote that")
+                };
+                v(&key, format!("{ctx}: step {k}: hook saw RIP {:#x} instead of {exp_rip:#x} ({why})", e.rip));
             }
+            if e.outcome == Outcome::Redirect {
+                exp_rip = target;
+            }
+        }
+        for e in &bseq {
             if e.rcx != rcx_model {
                 v("hooks|before-saw-effects", format!("{ctx}: step {k}: before-hook saw RCX {} instead of {}", e.rcx, rcx_model));
             }
@@ -284,9 +323,6 @@ fn run_config(c: &Config) -> Vec<(String, String)> {
             if e.rcx != rcx_model && !b_stop {
                 v("hooks|after-missed-effects", format!("{ctx}: step {k}: after-hook saw RCX {} instead of {}", e.rcx, rcx_model));
             }
-            if e.rip != next_rip {
-                v("hooks|rip-not-advanced|after", format!("{ctx}: step {k}: after-hook saw RIP {:#x}", e.rip));
-            }
         }
         if !b_stop {
             for (i, e) in aseq.iter().enumerate() {
@@ -319,6 +355,13 @@ fn run_config(c: &Config) -> Vec<(String, String)> {
             results.push(out);
             break;
         }
+        {
+            let rip_now = ax.reg_read_64(SR::RIP).unwrap();
+            if rip_now != exp_rip {
+                let key = if exp_rip == next_rip { "hooks|rip-after-step" } else { "hooks|rip-written-by-hook-lost|after-step" };
+                v(key, format!("{ctx}: step {k} left RIP {rip_now:#x}, expected {exp_rip:#x}"));
+            }
+        }
         if b_stop || a_stop {
             // (10)
             if out != StepOut::Ok(false) {
@@ -332,6 +375,10 @@ fn run_config(c: &Config) -> Vec<(String, String)> {
             break;
         }
         results.push(out);
+        if exp_rip != next_rip {
+            // redirected past the rest of the program
+            break;
+        }
     }
     // register-from-inside (8)
     let all: Vec<Entry> = LOG.with(|l| l.borrow().clone());
@@ -398,16 +445,16 @@ fn run_config(c: &Config) -> Vec<(String, String)> {
     viol
 }
 
-fn code_offset(kinds: &[bool], n: usize) -> u64 {
-    kinds.iter().take(n).map(|m1| if *m1 { 3u64 } else { 1 }).sum()
+fn code_offset(kinds: &[u8], n: usize) -> u64 {
+    kinds.iter().take(n).map(|k| if *k == 1 { 3u64 } else { 1 }).sum()
 }
 
 fn gen(maxk: usize) -> impl Fn(&mut EnumCtx) + Sync {
     move |e: &mut EnumCtx| {
         for nb in 0..=maxk {
             for na in 0..=maxk {
-                let tb = 6usize.pow(nb as u32);
-                let ta = 6usize.pow(na as u32);
+                let tb = NOUT.pow(nb as u32);
+                let ta = NOUT.pow(na as u32);
                 for cb in 0..tb {
                     for ca in 0..ta {
                         for program in 0..PROGRAMS.len() {
@@ -418,8 +465,8 @@ fn gen(maxk: usize) -> impl Fn(&mut EnumCtx) + Sync {
                                 let dec = |mut c: usize, n: usize| -> Vec<Outcome> {
                                     let mut v = vec![];
                                     for _ in 0..n {
-                                        v.push(OUTCOMES[c % 6]);
-                                        c /= 6;
+                                        v.push(OUTCOMES[c % NOUT]);
+                                        c /= NOUT;
                                     }
                                     v
                                 };
@@ -474,7 +521,7 @@ pub fn run(tier: Tier) -> i32 {
         return crate::common::finish_replay("C12", &art, &|ws| confirm_enum(&o, &g, ws));
     }
     let out = run_enum(&o, &g);
-    enum_evidence(&mut run, &out, "one case = (outcomes of up to k before-hooks and k after-hooks on `inc rcx` from {Unhandled, Handled, Stop, Error, Mutate(RBX), Register-a-hook-from-inside}, a logging hook pair on `nop`, one of 4 programs, one of 5 follow-up API calls); the event log of instrumented native hooks is checked against the order-agnostic grammar of DESIGN C12; states = distinct (hook event log, program, follow-up); distinct_nontrivial = distinct hook event logs");
+    enum_evidence(&mut run, &out, "one case = (outcomes of up to k before-hooks and k after-hooks on `inc rcx` from {Unhandled, Handled, Stop, Error, Mutate(RBX), Register-a-hook-from-inside, Redirect(RIP to a second trailing instruction)}, a logging hook pair on `nop`, one of 5 programs (the fifth ends by a top-level `ret` with a logging hook pair of its own), one of 5 follow-up API calls); the event log of instrumented native hooks is checked against the order-agnostic grammar of DESIGN C12; states = distinct (hook event log, program, follow-up); distinct_nontrivial = distinct hook event logs");
     run.cov("max_hooks_per_phase", json!(maxk));
     run.guard("cases", out.cases >= 30_000 || out.capped, format!("{} configurations", out.cases));
     run.guard("logs-distinct", out.distinct > 50, format!("{} distinct hook logs", out.distinct));
